@@ -360,7 +360,7 @@ func c16Reconnecting(c *Ctx) {
 	if c.Thorough() {
 		f = 2
 	}
-	faults := env.FaultSet{GoSilent: true, LostClose: true, OnlyTypes: map[byte]bool{env.PUBLISH: true, env.PINGREQ: true}}
+	faults := env.FaultSet{GoSilent: true, LostClose: true, WriteErr: true, OnlyTypes: map[byte]bool{env.PUBLISH: true, env.PINGREQ: true}}
 	type wl struct {
 		name string
 		reqs []rcReq
@@ -374,7 +374,7 @@ func c16Reconnecting(c *Ctx) {
 		{"idle+disconnect", nil, true},
 		{"pub-late+disconnect", []rcReq{{Kind: "p1", Tag: "m1", Phase: 'T'}}, true},
 	}
-	c.Bound("reconnecting", fmt.Sprintf("ReconnectClient with PingInterval %v / Timeout %v: workloads idle / one QoS 1 publish / publish after 15 s, optionally a final Disconnect at 45 s / exactly on the keep-alive tick at 40 s / 1 ns before / after it; faults %+v (peer close, peer silent => keep-alive timeout) F<=%d; every BaseClient handed out by the dialer is monitored; virtual time runs to 75 s (several keep-alive intervals past every reconnect); S<=1 P<=1 T<=1 (T: two timers due at the same instant may fire in either order relative to the tasks they wake; time itself stays exact)", interval, timeout, faults, f))
+	c.Bound("reconnecting", fmt.Sprintf("ReconnectClient with PingInterval %v / Timeout %v: workloads idle / one QoS 1 publish / publish after 15 s, optionally a final Disconnect at 45 s / exactly on the keep-alive tick at 40 s / 1 ns before / after it; faults %+v (peer close, failing write, peer silent => keep-alive timeout; only the last may be reported as a ping timeout) F<=%d; every BaseClient handed out by the dialer is monitored; virtual time runs to 75 s (several keep-alive intervals past every reconnect); S<=1 P<=1 T<=1 (T: two timers due at the same instant may fire in either order relative to the tasks they wake; time itself stays exact)", interval, timeout, faults, f))
 	discInstants := []time.Duration{45 * time.Second, 40 * time.Second, 40*time.Second - 1, 40*time.Second + 1}
 	for _, w := range wls {
 		for di, discAt := range discInstants {
@@ -468,6 +468,14 @@ func c16Reconnecting(c *Ctx) {
 							// an earlier connection that was given up for a reason the model did not inject
 							vrt.Failf("c16/healthy-connection-replaced", "connection %d was replaced although nothing ended it\n %s\n%s", cn.ID, m.String(), ctx())
 							continue
+						}
+						if sil < 0 {
+							// the broker answered every PINGREQ that reached it: whatever ended this connection, no ping timed out
+							for _, e := range m.evs {
+								if e.err != nil && errors.Is(e.err, mqtt.ErrPingTimeout) {
+									vrt.Failf("c16/ping-timeout-reported-without-timeout", "connection %d: %v reported with %v although no PINGREQ was left unanswered (the link ended otherwise)\n %s\n%s", cn.ID, e.state, e.err, m.String(), ctx())
+								}
+							}
 						}
 						m.judge(fmt.Sprintf("connection %d of %d (%s)", cn.ID, len(r.bases), w.name), c16DoneClosed(b), ctx)
 					}
